@@ -47,7 +47,18 @@ MaxOf(s) == IF Len(s) = 0 THEN 0 ELSE s[Len(s)].id
 Fresh(c, n, k) == [j \in 1..(k + Len(n)) |->
                      IF Len(n) > Len(c) /\ j <= Len(n) - Len(c) THEN n[Len(c) + j].id
                      ELSE Max2(MaxOf(c), MaxOf(n)) + j]
-TxIds(i) == Fresh(Raw(i - 1).txs, Raw(i).txs, Len(Els(i)) + 1)
+\* An atomic bulk that is rolled back leaves no transaction behind, but its elements did draw ids (from a
+\* sequence with gaps) and later elements of the same bulk may refer to them: the ids are then the ones the
+\* results report for transactions that did not exist before (ids are the environment's choice, see Ledger).
+OldTxIds(i) == {Raw(i - 1).txs[k].id : k \in DOMAIN Raw(i - 1).txs}
+ReportedIds(i) == LET rs == SelectSeq(Obs(i).els, LAMBDA r : r.ok /\ r.hasData /\ r.id \notin OldTxIds(i))
+                      ids == [k \in DOMAIN rs |-> rs[k].id]
+                  \* (an idempotent replay inside the same bulk reports the id of the element it replays: keep the first)
+                  IN FoldLeft(LAMBDA acc, x : IF x \in {acc[k] : k \in DOMAIN acc} THEN acc ELSE Append(acc, x), <<>>, ids)
+RolledBackAtomic(i) == Rq(i).atomic /\ Len(Raw(i).txs) = Len(Raw(i - 1).txs) /\ Len(ReportedIds(i)) > 0
+TxIds(i) == IF RolledBackAtomic(i)
+            THEN ReportedIds(i) \o [j \in 1..(Len(Els(i)) + 1) |-> Max2(MaxOf(Raw(i - 1).txs), 1000) + j]
+            ELSE Fresh(Raw(i - 1).txs, Raw(i).txs, Len(Els(i)) + 1)
 LogIds(i) == Fresh(Raw(i - 1).logs, Raw(i).logs, Len(Els(i)) + 1)
 
 \* what Bulk prescribes for a sequential request
